@@ -177,11 +177,22 @@ func verifConstRound(c any) (any, bool, bool) {
 //@ nocontract NewChild
 //@ ensures[C17.named.compiler] result != nil && result.parent == c && result.name == name && namedOK(result)
 
+// C17 (unmarshalling what the marshaller produced never fails): a leaf table definition whose entries are in place -
+// every symbol present at its own index, every by-name entry present under its own name, every free entry present
+// with its symbol - is turned into a table without an error. Names may repeat in Symbols: block scopes take their
+// slots from the enclosing function's table, so two `for i := ...` loops put two symbols named i into it (seed C17f
+// added a validation pass that rejected repeated names). Non-leaf tables fail only through a child (recursion: trusted).
+//@ spec wfdef(d) = d != nil && forall(k, 0, len(d.Symbols), d.Symbols[k] != nil && int(d.Symbols[k].Index) == k) && forallA(n, string, haskey(d.SymbolsByName, n) ==> d.SymbolsByName[n] != nil && d.SymbolsByName[n].Name == n) && forall(k, 0, len(d.Free), d.Free[k] != nil && d.Free[k].Symbol != nil)
 //@ func symbolTableFromDefinition
-//@ props C05
+//@ props C05 C17
 //@ commute 1
 //@ expand symbolFromDefinition
-//@ trusted
+//@ trusted except C17.symtab.total
+//@ invariant 1: true
+//@ invariant 2: true
+//@ invariant 3: true
+//@ invariant 4: true
+//@ ensures[C17.symtab.total] wfdef(def) && len(def.Children) == 0 ==> err == nil && result != nil
 //@ modcomps H_compiler_Symbol E_Pcompiler_Symbol E_Pcompiler_Resolution MD_string_ MV_string_ H_compiler_Resolution_
 
 //@ func codeFromState
